@@ -130,7 +130,7 @@ func t2Compare(c *explore.Ctx, sig string, tc t2Case, desc any) {
 	font, err := cff.Read(bytes.NewReader(data))
 	c.Outcome(tc.code, rerr == nil, err == nil)
 	if rerr != nil {
-		if rerr == reft2.ErrRandom || rerr == reft2.ErrSeac {
+		if rerr == reft2.ErrRandom {
 			c.Skip("outside the reference's domain")
 		}
 		// The property demands rejection for: stack under/overflow, missing endchar (incl. truncation),
@@ -188,6 +188,9 @@ func t2Compare(c *explore.Ctx, sig string, tc t2Case, desc any) {
 	g := font.Glyphs[1]
 	if !approxEq(g.Width, ref.Width) {
 		c.Fail("C05.width", sig, "width %v, specification gives %v (default %v nominal %v); program %v", g.Width, ref.Width, tc.defaultWidth, tc.nominalWid, desc)
+	}
+	if ref.Seac {
+		return // how the accented character is composed is outside the reference's domain; the width is not
 	}
 	cmpF := func(what string, a, b []float64) {
 		if len(a) != len(b) {
@@ -521,6 +524,27 @@ func c05Stems(r *run.Run) {
 			p.nums(7, 8).op(oRlineto).op(oEndchar)
 			c.Sample(func() any { return p.desc })
 			t2Compare(c, fmt.Sprintf("stems mask=%d implicit=%v", mask, implicit), t2Case{code: p.code, defaultWidth: 432, nominalWid: 100.5}, p.desc)
+		})
+
+	r.Explore(explore.Config{Name: "C05.endchar-forms"},
+		"endchar as the first stack-clearing operator: plain, with a width, in the deprecated seac form 'adx ady bchar achar endchar' with and without a width, each also after stem hints (where the stack has been cleared already): the advance width is defaultWidthX, or nominalWidthX plus the width operand",
+		func(c *explore.Ctx) {
+			width := c.Bool("width operand")
+			seac := c.Bool("seac operands")
+			stems := c.Bool("hstem first")
+			p := &t2prog{}
+			if width {
+				p.num(explore.Pick(c, "width value", -33.5, 0.0, 250.0))
+			}
+			if stems {
+				p.nums(10, 20).op(oHstem)
+			}
+			if seac {
+				p.nums(explore.Pick(c, "adx", 12.0, 0.0, -40.5), 7, 65, 66)
+			}
+			p.op(oEndchar)
+			c.Sample(func() any { return p.desc })
+			t2Compare(c, fmt.Sprintf("endchar forms seac=%v width=%v", seac, width), t2Case{code: p.code, defaultWidth: 432, nominalWid: 100.5}, p.desc)
 		})
 
 	r.Explore(explore.Config{Name: "C05.numbers"},
